@@ -75,6 +75,6 @@ CHECKS = {
                 note='trusted: Coq kernel, hand-written model coq/model/Batch.v tied to BatchGenerator per run by in-kernel vm_compute cases (batches per dimension + draws taken) and by the implementation-level prefix/size oracle over a spying source; modelled not verified: torch.cat, slicing, len',
                 text='Coq theorems (axiom-free) for any number of calls, any batch size and any stream of underlying draws (fixed or varying sizes): delivered batches concatenated ++ cache = draws taken (prefix), every batch has exactly `size` rows, termination for non-empty draws (always-empty source shown to diverge), and the code\'s per-dimension slicing is the transposition of the row model (rows intact)'),
     'C13': dict(engine=ENGINE_B, technique=TECH_B, ref='DESIGN.md section 7 C13',
-                note='trusted: Coq kernel, hand-written model coq/model/GenComb.v (isinstance dispatch, zip truncation, construction-time .size, stale filter size) tied to generators.py per run by in-kernel vm_compute cases (values, container, .size, raises) and an independent reference interpreter on the real classes; assumes fresh objects (tree, no sharing), pointwise user maps; see known_findings.d/C13.json',
-                text='Coq theorems (axiom-free) for combinator trees of any depth and any call index: the columns the code returns are the transposition of a row-level specification (concat=append, ensemble=juxtapose, mesh=row-major Cartesian product with product length/every combination/flattening, transform, filter+size update, resample rows of one draw with distinct indices, static/predefined constant, sampler shape), row coherence by structural induction, size arithmetic for static-size trees'),
+                note='trusted: Coq kernel, hand-written model coq/model/GenComb.v tied to generators.py per run by in-kernel vm_compute cases (values, container, .size, raises) and an independent reference interpreter on the real classes; assumes fresh objects (tree, no sharing), pointwise user maps; three defects found by this check were fixed in /repo (184d471, e57b511, 4431876), no open finding',
+                text='Coq theorems (axiom-free) for combinator trees of any depth and any call index: the columns the code returns are the transposition of a row-level specification (concat=append per dimension, ensemble=juxtapose with constructor refusing unequal sizes, mesh=row-major Cartesian product with product length/every combination/nested flattening, transforms incl. the default identity for any dimension count, filter + size update, resample = rows of the one draw just taken at indices that are in range for every possible RNG answer and distinct without replacement, static/predefined constant, sampler (n,1) shape); row coherence for the whole tree by structural induction; size arithmetic for static-size trees'),
 }
